@@ -5,6 +5,7 @@ package main
 // C19: concurrent senders / closer / receiver on a real BaseConn, recorded for TLC.
 
 import (
+	"strings"
 	"bytes"
 	"encoding/json"
 	"errors"
@@ -445,12 +446,17 @@ type connScript struct {
 	Feed     int   `json:"feed"`       // packets the peer sends towards the receiver
 	RClose   bool  `json:"rclose"`     // peer closes after feeding
 	WDelayUS int   `json:"wdelay_us"`
+	FailD    int   `json:"faildeadline"` // n-th SetReadDeadline fails
+	BlockW   int   `json:"blockwrite"`   // n-th carrier write blocks until the carrier is closed (back pressure)
 }
 
 func connConc(args []string) int {
 	fs := flag.NewFlagSet("conn-conc", flag.ExitOnError)
 	in := fs.String("scripts", "", "ndjson scripts")
 	out := fs.String("out", "", "ndjson traces")
+	shard := fs.Int("shard", 0, "shard")
+	shards := fs.Int("shards", 1, "shards")
+	fs.Int("slow", 1, "ignored (no timing dependence)")
 	fs.Parse(args)
 	f, err := os.Create(*out)
 	if err != nil {
@@ -458,11 +464,17 @@ func connConc(args []string) int {
 	}
 	defer f.Close()
 	rep := &util.Report{}
+	idx := 0
 	err = util.ReadLines(*in, func(line []byte) error {
+		idx++
+		if (idx-1)%*shards != *shard {
+			return nil
+		}
 		var s connScript
 		if err := json.Unmarshal(line, &s); err != nil {
 			return err
 		}
+		fmt.Fprintf(os.Stderr, "RUNNING script %d\n", s.ID)
 		log := runConnScenario(&s)
 		log.Write(f)
 		rep.Case()
@@ -476,18 +488,24 @@ func connConc(args []string) int {
 	return 0
 }
 
+func intsOf(b []byte) []int {
+	out := make([]int, len(b))
+	for i, x := range b {
+		out[i] = int(x)
+	}
+	return out
+}
+
 func runConnScenario(s *connScript) *trace.Log {
 	log := trace.New(s.ID)
 	car := link.NewCarrier(log, "k1")
 	car.FailWrite, car.FailRead, car.FailClose, car.PartialWrite = s.FailW, s.FailR, s.FailC, s.Partial
+	car.FailDeadline, car.BlockWrite = s.FailD, s.BlockW
 	car.WriteDelay = time.Duration(s.WDelayUS) * time.Microsecond
 	conn := transport.NewBaseConn(car)
 	delay := time.Duration(s.DelayMS) * time.Millisecond
 	conn.SetMaxWriteDelay(delay)
-	if s.Timeout > 0 {
-		conn.SetReadTimeout(time.Duration(s.Timeout) * time.Millisecond)
-	}
-	log.Add("config", "script", s.ID, "senders", s.Senders, "delay_ms", s.DelayMS)
+	feedLens := []int{}
 	var issued int64
 	var mu sync.Mutex
 	cond := sync.NewCond(&mu)
@@ -503,7 +521,8 @@ func runConnScenario(s *connScript) *trace.Log {
 		smu.Lock()
 		delete(stuck, name)
 		smu.Unlock()
-		log.Add("api.ret", "n", name, "err", errS(err))
+		// op and g are the first two pairs of kv
+		log.Add("api.ret", "n", name, kv[0], kv[1], kv[2], kv[3], "err", errS(err))
 	}
 	// feed for the receiver
 	var feed []byte
@@ -514,6 +533,11 @@ func runConnScenario(s *connScript) *trace.Log {
 		b := make([]byte, p.Len())
 		p.Encode(b)
 		feed = append(feed, b...)
+		feedLens = append(feedLens, len(b))
+	}
+	log.Add("config", "script", s.ID, "senders", s.Senders, "delay_ms", s.DelayMS, "feed", feedLens)
+	if s.Timeout > 0 {
+		conn.SetReadTimeout(time.Duration(s.Timeout) * time.Millisecond)
 	}
 	car.Feed(feed)
 	if s.RClose {
@@ -527,7 +551,7 @@ func runConnScenario(s *connScript) *trace.Log {
 			var got packet.Generic
 			name := fmt.Sprintf("recv%d", i+1)
 			var rerr error
-			call(name, []interface{}{"op", "receive"}, func() error {
+			call(name, []interface{}{"op", "receive", "g", "-"}, func() error {
 				got, rerr = conn.Receive()
 				return rerr
 			})
@@ -535,7 +559,9 @@ func runConnScenario(s *connScript) *trace.Log {
 				return
 			}
 			if pb, ok := got.(*packet.Publish); ok {
-				log.Add("recv.pkt", "m", string(pb.Message.Payload))
+				k := 0
+				fmt.Sscanf(string(pb.Message.Payload), "R#%d", &k)
+				log.Add("recv.pkt", "m", string(pb.Message.Payload), "k", k)
 			}
 		}
 	}()
@@ -561,7 +587,7 @@ func runConnScenario(s *connScript) *trace.Log {
 				enc := make([]byte, p.Len())
 				p.Encode(enc)
 				name := fmt.Sprintf("send%d.%d", g, i)
-				call(name, []interface{}{"op", "send", "g", g, "i", i, "async", async, "len", len(enc), "m", tag}, func() error { return conn.Send(p, async) })
+				call(name, []interface{}{"op", "send", "g", fmt.Sprintf("g%d", g), "i", i, "async", async, "enc", intsOf(enc), "m", tag}, func() error { return conn.Send(p, async) })
 				mu.Lock()
 				issued++
 				cond.Broadcast()
@@ -587,7 +613,7 @@ func runConnScenario(s *connScript) *trace.Log {
 			}
 			mu.Unlock()
 		}
-		call("close", []interface{}{"op", "close"}, func() error { return conn.Close() })
+		call("close", []interface{}{"op", "close", "g", "-"}, func() error { return conn.Close() })
 	}()
 	done := make(chan struct{})
 	go func() { wg.Wait(); close(done) }()
@@ -610,12 +636,34 @@ func runConnScenario(s *connScript) *trace.Log {
 		p.Message.Payload = []byte(tag)
 		return p
 	}
-	post("post.sync", []interface{}{"op", "send", "async", false, "m", "P#1", "g", 0, "i", 0, "len", 0}, func() error { return conn.Send(pk("P#1"), false) })
-	post("post.async1", []interface{}{"op", "send", "async", true, "m", "P#2", "g", 0, "i", 0, "len", 0}, func() error { return conn.Send(pk("P#2"), true) })
+	encOf := func(p *packet.Publish) []int {
+		b := make([]byte, p.Len())
+		p.Encode(b)
+		return intsOf(b)
+	}
+	p1, p2, p3 := pk("P#1"), pk("P#2"), pk("P#3")
+	post("post.sync", []interface{}{"op", "send", "g", "p1", "i", 1, "async", false, "enc", encOf(p1), "m", "P#1"}, func() error { return conn.Send(p1, false) })
+	post("post.async1", []interface{}{"op", "send", "g", "p2", "i", 1, "async", true, "enc", encOf(p2), "m", "P#2"}, func() error { return conn.Send(p2, true) })
 	time.Sleep(delay + 15*time.Millisecond)
-	post("post.async2", []interface{}{"op", "send", "async", true, "m", "P#3", "g", 0, "i", 0, "len", 0}, func() error { return conn.Send(pk("P#3"), true) })
-	post("post.recv", []interface{}{"op", "receive"}, func() error { _, err := conn.Receive(); return err })
-	post("post.close", []interface{}{"op", "close"}, func() error { return conn.Close() })
+	post("post.async2", []interface{}{"op", "send", "g", "p3", "i", 1, "async", true, "enc", encOf(p3), "m", "P#3"}, func() error { return conn.Send(p3, true) })
+	// the model has one receiver and one closer thread: a second call is only made when the first has returned
+	// (a call that hangs is reported by the "settle" event)
+	busy := func(prefix string) bool {
+		smu.Lock()
+		defer smu.Unlock()
+		for n := range stuck {
+			if strings.HasPrefix(n, prefix) {
+				return true
+			}
+		}
+		return false
+	}
+	if !busy("recv") {
+		post("post.recv", []interface{}{"op", "receive", "g", "-"}, func() error { _, err := conn.Receive(); return err })
+	}
+	if !busy("close") {
+		post("post.close", []interface{}{"op", "close", "g", "-"}, func() error { return conn.Close() })
+	}
 	smu.Lock()
 	st := []string{}
 	for n := range stuck {
